@@ -33,6 +33,8 @@ func init() {
 			{ID: "C19-R7", Title: "MarshalJSON methods quote with encoding/json", Floor: 3, Run: jsonMarshalersUseJSON},
 			{ID: "C19-R8", Title: "limited reads are checked for truncation", Floor: 1, Run: limitedReadsAreChecked},
 			{ID: "C19-R9", Title: "Interface() of a container is never a nil slice or map", Floor: 2, Run: containerInterfaceNotNil},
+			{ID: "C19-R10", Title: "a wrapper that sorts a Go error by type ends on every kind", Floor: 1, Run: errorBranchesDoNotFallThrough},
+			{ID: "C19-R11", Title: "a wrapper returns its Go namesake's result as it is", Floor: 20, Run: wrapperResultsNotReinterpreted},
 		},
 	})
 }
@@ -71,16 +73,29 @@ func registeredWrappers(p *core.Program) []wrapperInfo {
 		pk := p.Pkg(rel)
 		info := pk.TypesInfo
 		for _, f := range pk.Syntax {
+			seenFn := map[*types.Func]bool{}
 			ast.Inspect(f, func(n ast.Node) bool {
-				kv, ok := n.(*ast.KeyValueExpr)
+				var keyExpr ast.Expr
+				var val ast.Expr
+				switch x := n.(type) {
+				case *ast.KeyValueExpr:
+					keyExpr, val = x.Key, x.Value
+				case *ast.AssignStmt:
+					// generated registration: builtins["index"] = object.NewBuiltin("index", Index)
+					if len(x.Lhs) == 1 && len(x.Rhs) == 1 {
+						if ix, ok := x.Lhs[0].(*ast.IndexExpr); ok {
+							keyExpr, val = ix.Index, x.Rhs[0]
+						}
+					}
+				}
+				if keyExpr == nil {
+					return true
+				}
+				name, ok := constString(info, keyExpr)
 				if !ok {
 					return true
 				}
-				name, ok := constString(info, kv.Key)
-				if !ok {
-					return true
-				}
-				ce, ok := ast.Unparen(kv.Value).(*ast.CallExpr)
+				ce, ok := ast.Unparen(val).(*ast.CallExpr)
 				if !ok || len(ce.Args) < 2 {
 					return true
 				}
@@ -89,9 +104,10 @@ func registeredWrappers(p *core.Program) []wrapperInfo {
 					return true
 				}
 				fn, _ := objOf(info, ce.Args[1]).(*types.Func)
-				if fn == nil {
+				if fn == nil || seenFn[fn] {
 					return true
 				}
+				seenFn[fn] = true
 				out = append(out, wrapperInfo{rel, name, fn, pk, goPkg})
 				return true
 			})
